@@ -168,7 +168,33 @@ func runC22(c *eng.Ctx) {
 		}
 		c.Ob("ALIAS-sealed", eng.FuncName(fn)+" seals-given-buffer", okSeal, fn.Pos(), "the newest retained buffer is the buffer being sealed")
 	}
-	c.Expect("ALIAS-sealed", 2)
+	// the memory of the current and of the sealed buffers is recycled (SealBuffer hands the oldest sealed memory back as the
+	// next write buffer) while subscribers parse a batch outside the lock: whatever ReadFromBuffer returns is a private copy
+	if fn := c.NeedFunc("weed/util/log_buffer", "(*LogBuffer).ReadFromBuffer"); fn != nil {
+		for i, r := range eng.Find(fn, eng.IsReturn) {
+			ret := r.(*ssa.Return)
+			if len(ret.Results) == 0 {
+				continue
+			}
+			ok, bad := true, ""
+			for _, v := range eng.ResolveFrom(ret.Results[0], ret) {
+				if v == eng.Zero || eng.IsNilConst(v) {
+					continue
+				}
+				if call, isCall := eng.Unwrap(v).(*ssa.Call); isCall && eng.CalleeIs(call, "log_buffer.copiedBytes") {
+					continue
+				}
+				ok, bad = false, v.String()
+			}
+			c.Ob("ALIAS-sealed", fmt.Sprintf("%s returns-private-copy#%d", eng.FuncName(fn), i), ok, r.Pos(), "a batch handed to a subscriber is nil or a copy made by copiedBytes, never a view of buffer memory that will be recycled"+ifs(bad != "", ": "+bad))
+		}
+	}
+	if fn := c.NeedFunc("weed/util/log_buffer", "copiedBytes"); fn != nil {
+		wr := eng.Find(fn, eng.PlainCallTo("bytes.Buffer).Write"))
+		okCopy := len(wr) == 1 && eng.IsParam(eng.Unwrap(eng.Arg(wr[0].(ssa.CallInstruction), 0)), "buf") && len(eng.Find(fn, eng.PlainCallTo("bytes.NewBuffer"))) == 0
+		c.Ob("ALIAS-sealed", eng.FuncName(fn)+" copies", okCopy, fn.Pos(), "copiedBytes writes the bytes into a buffer of its own (bytes.Buffer.Write copies) instead of wrapping the given memory")
+	}
+	c.Expect("ALIAS-sealed", 6)
 
 	// a buffer that is only kept in memory (no flush function) records what it dropped from the current buffer as
 	// flushed: that is what lets a reader behind the retained buffers learn that it must resume elsewhere
